@@ -137,6 +137,11 @@ def imm_container(c, n, pkg, qual, handles):
     """Returns (header lines, pre lines, statement text, post lines, footer lines) of one container."""
     x = "r" if c["via"] == "r" else "p%d" % n     # every receiver is called r
     stmt = IMM_STMT[c["stmt"]] % {"x": x, "n": n}
+    if c["sp"] == "fnalias":
+        # the type is reached through a function-local alias that is called R in every function
+        target, var = ("U", "u%d" % n) if c["stmt"] == "onU" else ("T", "p%d" % n)
+        hdr = {"ctor1": "func NewT() {", "other": "func fn%d() {" % n, "init": "func init() {", "ometh": "func (o%d *O) m%d() {" % (n, n)}[c["kind"]]
+        return [hdr], ["type R = %s%s" % (qual, target), "var %s *R" % var], stmt, [], ["}"]
     te = type_expr(c["sp"], c["ptr"], qual)
     pre, post = [], []
     params = "p%d %s" % (n, te)
@@ -278,10 +283,15 @@ def ctor_ann(ann):
 
 def ctor_container(c, n, pkg, qual, handles):
     sp = c.get("sp", "direct")
-    t = {"direct": qual + "T", "rename": qual + "T", "alias": "TA", "alias3": "q.TA", "paren": "(" + qual + "T)"}[sp]
+    t = {"direct": qual + "T", "rename": qual + "T", "alias": "TA", "alias3": "q.TA", "paren": "(" + qual + "T)", "fnalias": "R"}[sp]
     k = c["kind"]
     tmpl = CTOR_STMT[c["stmt"]][1 if k == "pkgdecl" else 0]
     stmt = tmpl % {"t": t, "n": n, "q": qual}
+    fnpre = []
+    if sp == "fnalias":
+        fnpre = ["type R = %s%s" % (qual, "U" if c["stmt"] == "onU" else "T")]
+        if c["stmt"] == "onU":
+            stmt = "_ = R{X: %d}" % n
     post = []
     if k != "pkgdecl" and c["stmt"] in ("new", "varZero", "varPtr", "new2", "varZero2"):
         post = ["_ = v%d" % n]
@@ -297,7 +307,7 @@ def ctor_container(c, n, pkg, qual, handles):
         "pkgvar": "var _ = func() int {",
     }[k]
     ftr = ["}"] if k != "pkgvar" else ["\treturn 0", "}()"]
-    return [hdr], [], stmt, post, ftr
+    return [hdr], fnpre, stmt, post, ftr
 
 
 def build_ctor(sc, sid):
